@@ -17,6 +17,9 @@ type PropDef struct {
 	// Sweep: the scenario has a client named "sweep" whose first operation is injected
 	// at every scheduler step of a baseline run.
 	Sweep bool
+	// JudgeCutOff: the property's clauses hold of every prefix of a history, so a run that was
+	// cut off by the step budget (a change that makes goroutines pile up does that) is judged too
+	JudgeCutOff bool
 	// Valid (optional): the minimiser only keeps simplified scenarios for which it holds
 	// (invariants the generator guarantees and the oracle relies on)
 	Valid func(sc *Scenario) bool
@@ -1185,6 +1188,21 @@ func init() {
 						ts.Launches[l].Children = []simos.Script{{LifeMs: ts.Launches[l].LifeMs + Pick(r, 100, 1000), HoldsPipes: true}}
 					}
 				}
+				if len(ts.Launches) > 0 && ts.Launches[0].StartErr == "" && r.P(80) {
+					// a log file that cannot be opened (a component of its path is a regular file):
+					// the process runs, is logged in memory and ends like any other
+					sc.Files = map[string]string{"blocker": "not a directory\n"}
+					p.LogLocation = "blocker/" + p.Name + ".log"
+					ts.Launches[0].Out, ts.Launches[0].ReadErrAt = nil, 0
+					genOutput(r, &ts.Launches[0], p.Name, 0, 130)
+					var keep []Client
+					for _, c := range sc.Clients {
+						if c.Name != "fw-"+p.Name {
+							keep = append(keep, c) // (there is no file to look at)
+						}
+					}
+					sc.Clients = keep
+				}
 				if (p.Restart == "always" || p.Restart == "on_failure") && len(ts.Launches) >= 2 && ts.Launches[0].LifeMs >= 0 && r.P(300) {
 					// the restart attempt cannot be started: what the first attempt wrote is
 					// in the log all the same
@@ -1227,7 +1245,7 @@ func init() {
 }
 
 func init() {
-	register(&PropDef{ID: "C10", Rule: "1-2 processes with exec readiness probes whose initial_delay/period/timeout/thresholds are drawn from {-1,0,1,2,3,10,unset}, scripted probe outcome sequences (pass, fail, hang past the time-out, flapping) on the simulated kernel and the fake clock, all restart policies; non-trivial = at least 3 probe runs; distinct = distinct trace hash",
+	register(&PropDef{ID: "C10", JudgeCutOff: true, Rule: "1-2 processes with exec readiness probes whose initial_delay/period/timeout/thresholds are drawn from {-1,0,1,2,3,10,unset}, scripted probe outcome sequences (pass, fail, hang past the time-out, flapping) on the simulated kernel and the fake clock, all restart policies; non-trivial = at least 3 probe runs; distinct = distinct trace hash",
 		Gen: func(seed uint64, idx int, tier string) *Scenario {
 			sc, r := baseScenario("C10", seed)
 			genC10(r, sc)
